@@ -1830,6 +1830,15 @@ class unyt_array(np.ndarray):
             if u.dimensions is angle and ufunc in trigonometric_operators:
                 # ensure np.sin(90*degrees) works as expected
                 inp = inp.in_units("radian").v
+            initial = kwargs.get("initial")
+            if (
+                method == "reduce"
+                and isinstance(initial, unyt_array)
+                and ufunc not in (multiply, divide)
+            ):
+                # the start value takes part like any other element:
+                # express it in the array's unit, or refuse
+                kwargs["initial"] = initial.to_value(u)
             # get unit of result first: a refused unit must not leave numbers in out
             if ufunc in (multiply, divide) and method == "reduce":
                 mul, unit = _apply_power_mapping(ufunc, u, inp.size, inp.shape, kwargs)
